@@ -408,17 +408,27 @@ func (s *vOrderState) cleanup() {
 type vOrderViolation struct{ Rule, Trigger, Detail string }
 
 func vJudgeOrder(s *vOrderState, terminated bool) []vOrderViolation {
-	var out []vOrderViolation
 	run := s.run
 	trig := s.sc.Name
-	bad := func(rule, detail string) {
-		out = append(out, vOrderViolation{rule, trig, fmt.Sprintf("scenario %s: %s; calls: %s", s.sc.Name, detail, vOrderCalls(run.Calls))})
-	}
 	if !terminated {
-		bad("order-terminates", "the order did not terminate after every scripted call was released and shutdown was requested")
-		return out
+		return []vOrderViolation{{"order-terminates", trig, fmt.Sprintf("scenario %s: the order did not terminate after every scripted call was released and shutdown was requested; calls: %s", s.sc.Name, vOrderCalls(run.Calls))}}
 	}
-	calls := s.g.Calls()
+	won := run.LeaseWon > 0
+	run.Won = won
+	var out []vOrderViolation
+	for _, v := range vJudgeCalls(s.g.Calls(), s.oid, s.prov, s.max, won) {
+		out = append(out, vOrderViolation{v.Rule, trig, fmt.Sprintf("scenario %s: %s; calls: %s", s.sc.Name, v.Detail, vOrderCalls(run.Calls))})
+	}
+	return out
+}
+
+// vJudgeCalls is the oracle proper: the scripted calls made on behalf of one
+// order, judged once handling of that order has ended.
+func vJudgeCalls(calls []*vs.GateCall, oid mtypes.OrderID, prov sdk.AccAddress, max sdk.Coin, won bool) []vOrderViolation {
+	var out []vOrderViolation
+	bad := func(rule, detail string) {
+		out = append(out, vOrderViolation{Rule: rule, Detail: detail})
+	}
 	var creates, closes, reservesOK, unreserves []*vs.GateCall
 	existingFound := false
 	for _, c := range calls {
@@ -453,10 +463,10 @@ func vJudgeOrder(s *vOrderState, terminated bool) []vOrderViolation {
 		if !ok {
 			continue
 		}
-		if m.Price.Denom != s.max.Denom || m.Price.Amount.GT(s.max.Amount) {
-			bad("bid-never-above-order-maximum", fmt.Sprintf("bid price %s, order maximum %s", m.Price, s.max))
+		if m.Price.Denom != max.Denom || m.Price.Amount.GT(max.Amount) {
+			bad("bid-never-above-order-maximum", fmt.Sprintf("bid price %s, order maximum %s", m.Price, max))
 		}
-		if !m.Order.Equals(s.oid) || m.Provider != s.prov.String() {
+		if !m.Order.Equals(oid) || m.Provider != prov.String() {
 			bad("bid-names-this-order-and-provider", fmt.Sprintf("bid for %v by %s", m.Order, m.Provider))
 		}
 		reservedBefore := false
@@ -472,8 +482,6 @@ func vJudgeOrder(s *vOrderState, terminated bool) []vOrderViolation {
 			bidLanded = true
 		}
 	}
-	won := run.LeaseWon > 0
-	run.Won = won
 	if !won {
 		if len(unreserves) < len(reservesOK) {
 			bad("reservation-released-when-not-won", fmt.Sprintf("%d reservation(s) succeeded, %d release(s) were requested", len(reservesOK), len(unreserves)))
@@ -488,7 +496,7 @@ func vJudgeOrder(s *vOrderState, terminated bool) []vOrderViolation {
 		for _, c := range closes {
 			msgs, _ := c.Arg.([]sdk.Msg)
 			if len(msgs) == 1 {
-				if m, ok := msgs[0].(*mtypes.MsgCloseBid); ok && (!m.BidID.OrderID().Equals(s.oid) || m.BidID.Provider != s.prov.String()) {
+				if m, ok := msgs[0].(*mtypes.MsgCloseBid); ok && (!m.BidID.OrderID().Equals(oid) || m.BidID.Provider != prov.String()) {
 					bad("close-bid-names-own-bid", fmt.Sprintf("close-bid for %v", m.BidID))
 				}
 			}
@@ -638,6 +646,10 @@ func TestVerif_C13(t *testing.T) {
 	}
 	if vs.Stage() == "race" {
 		vOrderFreeRuns(res, vs.Scale(300, 20000))
+		return
+	}
+	if vs.Stage() == "service" {
+		vServiceStage(res)
 		return
 	}
 	scs := vOrderScenarios()
